@@ -379,7 +379,7 @@ REG_POOL = {
     "tos_uri": URI_POOL[:6] + [None],
     "policy_uri": URI_POOL[:6] + [None],
     "jwks_uri": URI_POOL[:8] + [None, 7],
-    "scope": ["a", "a b", "b a", "a z", "z", "", None, "a  b", " a ", ["a"], ["a", "z"], [], 5, True, {"a": 1}],
+    "scope": ["a", "a b", "b a", "a z", "z", "", None, "a  b", " a ", ["a"], ["a", "z"], [], 5, True, {"a": 1}, ["a", ""], ["a", None], ["a", 0], ["", "z"]],
     "grant_types": [["authorization_code"], ["implicit"], ["password"], ["authorization_code", "refresh_token"], ["authorization_code", "zz"], [], None, "implicit", "i", [["x"]], [{}], 5,
                     True, {"implicit": 1}, {"zz": 1}, [1]],
     "response_types": [["code"], ["token"], ["id_token"], ["code", "token"], [], None, "code", "c", 5, [["x"]], {"code": 1}],
